@@ -3050,6 +3050,19 @@ example : ∃ ev' ev : Ev Rat,
   exact ⟨ev', ev, by rw [h1], by rw [h2], h3⟩
 
 example : ∃ ev' ev : Ev Rat,
+    (cookwareP (⟨lex toyCharSpec (render (spellCookware C17_w10Comp { e := C17_w10PadC })), 0, ⟨0⟩, toyCharSpec, #[], none⟩ : BP Rat)).1 = some ev' ∧
+    (cookwareP (⟨lex toyCharSpec (render (spellCookware C17_w10Comp {})), 0, ⟨0⟩, toyCharSpec, #[], none⟩ : BP Rat)).1 = some ev ∧
+    EvLoose toyCharSpec ev' ev := by
+  obtain ⟨a1, a2⟩ := rtin_lex_spells toyCharSpec 0 (spellCookware C17_w10Comp { e := C17_w10PadC }) (by decide)
+  obtain ⟨b1, b2⟩ := rtin_lex_spells toyCharSpec 0 (spellCookware C17_w10Comp {}) (by decide)
+  obtain ⟨ev', ev, h1, h2, h3⟩ := C17_comment_only_braces_cookware (α := Rat) C17_w10Comp {} C17_w10PadC
+    ⟨lex toyCharSpec (render (spellCookware C17_w10Comp { e := C17_w10PadC })), 0, ⟨0⟩, toyCharSpec, #[], none⟩
+    ⟨lex toyCharSpec (render (spellCookware C17_w10Comp {})), 0, ⟨0⟩, toyCharSpec, #[], none⟩
+    rfl rfl (by decide) (by decide) (by decide) (by decide) [] _ [] [] _ [] a1 b1 (by simp [lex]) (by simp [lex]) rfl rfl
+    (by decide) (by decide) a2.base b2.base
+  exact ⟨ev', ev, by rw [h1], by rw [h2], h3⟩
+
+example : ∃ ev' ev : Ev Rat,
     (timerP (⟨lex toyCharSpec (render (spellTimer C17_w10Timer { e := C17_w10PadC })), 0, ⟨0⟩, toyCharSpec, #[], none⟩ : BP Rat)).1 = some ev' ∧
     (timerP (⟨lex toyCharSpec (render (spellTimer C17_w10Timer {})), 0, ⟨0⟩, toyCharSpec, #[], none⟩ : BP Rat)).1 = some ev ∧
     EvLoose toyCharSpec ev' ev := by
